@@ -246,6 +246,20 @@ func runCallback(rep *vh.Report, env vh.Env, worlds []*world, i int) {
 		cookies = []string{""}
 	case "state-eq-cookie":
 		states = []string{fa.CSRF}
+		if r.Intn(2) == 0 {
+			// the cookie holds SEVERAL sealed records joined by a separator, the state being one of them
+			// (what a "several pending flows" cookie would look like): not a value this proxy sealed, and
+			// the state is still no different ciphertext from what the cookie carries (added after seeded
+			// change C06m)
+			sep := []string{"|", ",", " ", "%7C", "||", "|,"}[r.Intn(6)]
+			other := []string{fa.State, reseal(fa.Rec), reseal(proxy.StateParameter{SessionID: fmt.Sprintf("%064x", r.Uint64()), RedirectURI: "/other/" + word(r, 3)})}[r.Intn(3)]
+			if r.Intn(2) == 0 {
+				cookies = []string{fa.CSRF + sep + other}
+			} else {
+				cookies = []string{other + sep + fa.CSRF}
+			}
+			variant = "cookie-joins-several-records"
+		}
 	case "cookie-eq-state":
 		cookies = []string{fa.State}
 	case "swapped":
